@@ -5758,7 +5758,11 @@ class Forward(ParseElementEnhance):
                         try:
                             memo[act_key] = super().parseImpl(instring, loc, True)
                         except ParseException as e:
-                            memo[peek_key] = memo[act_key] = (new_loc, e)
+                            # memoize a copy, callers may update the exception they catch
+                            memo[peek_key] = memo[act_key] = (
+                                new_loc,
+                                e.__class__._from_exception(e),
+                            )
                             raise
                     prev_loc, prev_peek = memo[peek_key] = new_loc, new_peek
 
